@@ -52,7 +52,14 @@ EmptyFrom == UNION {{[to |-> With(BaseV(g, 1), r.t, ValA(r)), from |-> With(Base
                      : r \in {x \in OwnRows(g) : x.k \in {"item", "items", "nlv"}}} : g \in {"Object", "Actor", "OrderedCollection", "CollectionPage"}}
 \* both sides untyped: the struct says what kind of value it is
 BothUntyped == {[to |-> NoType(BaseV(g, 4)), from |-> NoType(FullOf(g))] : g \in CopyTypes}
-AllCopy == EmptyFrom \cup BothUntyped \cup UntypedTo \cup Shared \cup OneTerm \cup TwoTerms \cup GuardCases \cup VariantIds
+\* the same item property set on both sides in different shapes of ONE identity (a bare IRI and the full object with that id):
+\* equal for ItemsEqual, yet from's value is what `to` must end up with
+SameIdOtherShape == UNION {UNION {{[to |-> With(BaseV(g, 1), t, Iri(Note1.p.id.s)), from |-> With(BaseV(g, 1), t, Note1)],
+                                   [to |-> With(BaseV(g, 1), t, Note1), from |-> With(BaseV(g, 1), t, Iri(Note1.p.id.s))],
+                                   [to |-> With(BaseV(g, 1), t, Note1), from |-> With(BaseV(g, 1), t, With(Note1, "summary", Nlv(<<LR(NilTag, "newer")>>)))]}
+                                  : t \in {"attachment", "attributedTo", "context", "icon", "inReplyTo", "url"}}
+                           : g \in {"Object", "Actor", "OrderedCollection"}}
+AllCopy == SameIdOtherShape \cup EmptyFrom \cup BothUntyped \cup UntypedTo \cup Shared \cup OneTerm \cup TwoTerms \cup GuardCases \cup VariantIds
 GenInit == mto = <<>> /\ mfrom = <<>> /\ phase = "gen"
 GenNext == FALSE /\ UNCHANGED vars
 ASSUME ndJsonSerialize("c18_cases.ndjson", SetToSeq(AllCopy))
